@@ -95,6 +95,14 @@ def run(ctx: Context) -> None:
     _infra.move_dimensions_exits(ctx, 'R03.9')
     from .common import adopt_foundations as _adopt
     _adopt(ctx, 'R03.8', ['topology'], floor=30)
+    ctx.rule('R03.12', "the axis or name a caller gave for the linear dimension is used: the defaults (last axis, an unused name, the default grid kind) are substituted only where none was given", floor=2)
+    with ctx.section('R03.12'):
+        from . import infra as _infra312
+        _infra312.none_default_discipline(ctx, 'R03.12', ['emsarray.conventions._base.DimensionConvention.wind', 'emsarray.utils.ravel_dimensions'])
+    ctx.rule('R03.11', "the deprecated alias make_linear is ravel: its argument is passed on as given", floor=1)
+    with ctx.section('R03.11'):
+        from . import infra as _infra11
+        _infra11.passes_parameters_on(ctx, 'R03.11', 'emsarray.conventions._base.Convention.make_linear', "make_linear stands for ravel")
     ctx.rule('R03.10', "the sizes that wind takes from the convention's grid_shape are, kind by kind and under the same conditions, the sizes of the dimensions grid_dimensions binds to that kind (facts shared with C01 R01.2)", floor=4)
     from . import c01 as _c01
     from .common import share_obligations as _share01
